@@ -465,6 +465,27 @@ func driveDiff(seed uint64, n int, size int, em *Emitter) {
 			}
 			em.Op("C02,C01", "S upstream-same-gas-sweep "+c.fork, v)
 		}
+		// C18: call trees with logs at every level and failures at every level (what withLog has to filter)
+		if i%2 == 0 {
+			g := &fgen{r: r, codes: map[common.Address][]byte{}, blobs: map[common.Address][]byte{}, aspects: map[common.Address]*aspectScript{}, standard: true}
+			fk := c.fork
+			if forkIndex(fk) < forkIndex("Byzantium") {
+				fk = "Byzantium"
+			}
+			body := g.genBody(0)
+			rootA := common.BytesToAddress([]byte{0xc0, 0, 0})
+			g.codes[rootA] = g.compileBody(body, []byte{opSTOP, opRETURN, opREVERT, opINVALID}[r.Intn(4)], 36, nil, false)
+			for a, b := range g.blobs {
+				g.codes[a] = b
+			}
+			tc := &diffCase{fork: fk, codes: g.codes, root: rootA, input: c.input, value: big.NewInt(0), jpOn: c.jpOn}
+			cfgs := []struct{ n, cfg string }{{"callTracer", `{"withLog":true}`}, {"callTracer", `{}`}, {"flatCallTracer", `{}`}, {"prestateTracer", `{"diffMode":true}`}}
+			t := cfgs[r.Intn(len(cfgs))]
+			if r.Chance(60) {
+				t = cfgs[0]
+			}
+			em.Op("C18", "S tracer-same-tree "+t.n, runTracerPair(tc, t.n, t.cfg, 30_000_000))
+		}
 		// C18: inherited tracers produce upstream's output when no Aspect is involved
 		if i%3 == 0 && !c.create && forkIndex(c.fork) >= 1 {
 			names := []struct{ n, cfg string }{{"callTracer", `{"withLog":true}`}, {"callTracer", `{"onlyTopCall":true}`}, {"flatCallTracer", `{}`},
